@@ -359,6 +359,55 @@ def mk_leaf_profiles(moltype_name, _replay=None):
     return {"status": "holds", "paths": 1, "queries": 1, "detail": f"{len(symbols)} symbols x {len(states)} states", "solver_s": round(time.time() - t0, 2)}
 
 
+def mk_leaf_profiles_words(k, _replay=None):
+    """multi-letter motifs (dinucleotide / trinucleotide words): a word is compatible with a state iff EVERY position is, for a
+    symbolic tuple of symbol indices and a symbolic state (finite-domain z3 query over tables extracted from the real leaf)."""
+    from cogent3 import get_moltype
+    from cogent3.evolve.likelihood_tree import make_likelihood_tree_leaf
+
+    t0 = time.time()
+    mt = get_moltype("dna")
+    alpha = mt.alphabet.get_word_alphabet(k)
+    states = [str(x) for x in alpha]
+    symbols = [s for s in mt.ambiguities if s != "-"]
+    sub = symbols if k == 2 else ["T", "C", "A", "G", "N", "?", "R", "Y"]
+    words = ["".join(w) for w in itertools.product(sub, repeat=k)]
+    text = "".join(words)
+    seq = mt.make_seq(seq=text, name="s")
+    leaf = make_likelihood_tree_leaf(seq, alpha, "s")
+
+    def compat(word, state):
+        return all(state[i] in mt.ambiguities[word[i]] for i in range(k))
+
+    if _replay is not None:
+        w = words[int(_replay["w"])]
+        y = int(_replay["y"])
+        got = leaf.input_likelihoods[leaf.index[words.index(w)]][y]
+        want = 1.0 if compat(w, states[y]) else 0.0
+        return {"status": "reproduced" if got != want else "not_reproduced", "detail": f"word {w} state {states[y]}: profile {got}, compatible {want}"}
+    Wv, Y = z3.Int("w"), z3.Int("y")
+    got = z3.IntVal(-1)
+    want = z3.IntVal(-1)
+    for wi, w in enumerate(words):
+        row = leaf.input_likelihoods[leaf.index[wi]]
+        g = z3.IntVal(-1)
+        x = z3.IntVal(-1)
+        for yi, st in enumerate(states):
+            g = z3.If(Y == yi, z3.IntVal(int(row[yi])), g)
+            x = z3.If(Y == yi, z3.IntVal(1 if compat(w, st) else 0), x)
+        got = z3.If(Wv == wi, g, got)
+        want = z3.If(Wv == wi, x, want)
+    dom = [Wv >= 0, Wv < len(words), Y >= 0, Y < len(states)]
+    if not W.reach("end"):
+        return {"status": "cex", "cex": {"twin": f"{len(words)} words x {len(states)} states"}}
+    r, m, dt = psx.check_valid(dom, got == want, timeout_ms=600000)
+    if r == "sat":
+        return {"status": "cex", "cex": {"w": m[Wv].as_long(), "y": m[Y].as_long(), "word": words[m[Wv].as_long()]}}
+    if r != "unsat":
+        return {"status": "inconclusive", "detail": f"z3 {r}"}
+    return {"status": "holds", "paths": 1, "queries": 1, "detail": f"{len(words)} words x {len(states)} states", "solver_s": round(time.time() - t0, 2)}
+
+
 # ---------------------------------------------------------------- _indexed (E1 CrossHair)
 def mk_indexed(n):
     def check(v0: int, v1: int, v2: int, v3: int, v4: int, c: int) -> bool:
@@ -404,7 +453,7 @@ ENCODED = [
 ]
 BOUNDS = {
     "quick": ["tree shapes: cherry, 3-star, rooted 3, 4-star, balanced 4, ladder 4, internal trifurcation, single-child internal nodes", "states M=2 for all shapes, M=4 for shapes with <= 3 tips; 4 alignment columns with 2 symbolic leaf vectors per tip",
-              "sum-to-one: M=2, <= 3 tips", "bins <= 3", "leaf profiles: every DNA / RNA / protein symbol incl. degenerate and '?'", "_indexed (CrossHair): <= 3 values in 0..2 (dict keys force concrete values; thorough: 4 values)"],
+              "sum-to-one: M=2, <= 3 tips", "bins <= 3", "leaf profiles: every DNA / RNA / protein symbol incl. degenerate and '?'; dinucleotide words over all 16 symbols and trinucleotide words over {T,C,A,G,N,?,R,Y}", "_indexed (CrossHair): <= 3 values in 0..2 (dict keys force concrete values; thorough: 4 values)"],
     "thorough": ["as quick, M=4 for all shapes (optional beyond 3 tips: z3 may give up, reported)", "sum-to-one: M=2 <= 4 tips, M=4 <= 2 tips", "bins <= 4"],
 }
 ASSUMPTIONS = [
@@ -468,6 +517,8 @@ def obligations(tier):
         obs.append(Ob(f"binned/n{nb}", __name__, "mk_binned", {"nbins": nb}, kind="direct", timeout=300, group="bins"))
     for mt in ("dna", "rna", "protein"):
         obs.append(Ob(f"leaf_profiles/{mt}", __name__, "mk_leaf_profiles", {"moltype_name": mt}, kind="direct", timeout=300, group="leaves"))
+    for k in (2, 3):
+        obs.append(Ob(f"leaf_profiles_words/k{k}", __name__, "mk_leaf_profiles_words", {"k": k}, kind="direct", timeout=900, group="leaves"))
     for n in ([2, 3, 4] if T else [2, 3]):
         obs.append(Ob(f"indexed/n{n}", __name__, "mk_indexed", {"n": n}, timeout=900, group="index"))
     return obs
